@@ -62,8 +62,8 @@ func VerifC14Fill(kind, n int) {
 	vrt.Assume(c.feMode == 0)
 	// known findings: an empty sequence, start = length, an explicit end =
 	// length and :end nil are rejected although valid
-	vrt.Carve("C14-valid-args-rejected", c.endMode == 1)
-	vrt.Carve("C14-valid-args-rejected", cls == zzC14BValid && (s == int64(n) || (c.endMode == 2 && e == int64(n))))
+	vrt.Carve("C14-valid-args-rejected", c.endMode == 1 ||
+		(cls == zzC14BValid && (s == int64(n) || (c.endMode == 2 && e == int64(n)))))
 	form := slip.List{slip.Symbol("fill"), zzC14Quote(zzC14Seq(kind, c.vals)), c.itemObj()}
 	form = append(form, c.keywords()...)
 	out := zzC14Eval(slip.NewScope(), form)
@@ -130,4 +130,69 @@ func VerifC14Reverse(kind, n, fn int) {
 		}
 	}
 	vrt.Assert(zzC14IsSeq(kind, out.val, want), name+": wrong result")
+}
+
+// VerifC14CountMB: count / count-if on a string that starts with a two byte
+// character ("é" followed by n symbolic ASCII characters): indices are
+// character indices, the length is n+1.
+func VerifC14CountMB(n, ifForm int) {
+	rest := zzC14Elems(zzC14String, n)
+	ba := make([]byte, n)
+	for i, v := range rest {
+		ba[i] = byte(v)
+	}
+	str := slip.String("é" + string(ba))
+	ib := vrt.Byte("itemc")
+	vrt.Assume(ib < 128)
+	hasS := vrt.Choice("hasStart", 2) == 1
+	var start, end int64
+	if hasS {
+		start = zzC14Bound("start", n+1)
+	}
+	endMode := vrt.Choice("endMode", 3)
+	if endMode == 2 {
+		end = zzC14Bound("end", n+1)
+	}
+	s, e, cls := zzC14Class(hasS, start, endMode, end, n+1)
+	// count.go uses the byte length as the default end: every call without an
+	// explicit :end faults (and is turned into a Lisp error)
+	vrt.Carve("C14-valid-args-rejected", cls == zzC14BValid && endMode != 2)
+	vrt.Carve("C14-invalid-bounds-accepted", cls == zzC14BStartGt || (cls == zzC14BEndBig && e <= s))
+	name := "count"
+	form := slip.List{slip.Symbol("count"), slip.Character(rune(ib)), str}
+	if ifForm != 0 {
+		name = "count-if"
+		form = slip.List{slip.Symbol("count-if"), zzC14Quote(zzC14NewFn(4)), str}
+	}
+	if hasS {
+		form = append(form, slip.Symbol(":start"), slip.Fixnum(start))
+	}
+	switch endMode {
+	case 1:
+		form = append(form, slip.Symbol(":end"), nil)
+	case 2:
+		form = append(form, slip.Symbol(":end"), slip.Fixnum(end))
+	}
+	out := zzC14Eval(slip.NewScope(), form)
+	if !zzC14Check(name+" (multi-byte string)", out, cls) {
+		return
+	}
+	var want int64
+	for i := int64(0); i <= int64(n); i++ {
+		if i < s || e <= i {
+			continue
+		}
+		code := int64(233) // é
+		if 0 < i {
+			code = rest[i-1]
+		}
+		if ifForm != 0 {
+			if zzC14Pivot < code {
+				want++
+			}
+		} else if code == int64(ib) {
+			want++
+		}
+	}
+	vrt.Assert(zzC14IsIndex(out.val, want), name+": wrong number on a multi-byte string")
 }
